@@ -94,7 +94,7 @@ def judge(c, res):
         res.count('start_in_error')
     if nbusy >= 1 and (c['n'] % 1024 or c['n'] == c['pages'] * 1024):
         res.nt(env.chash(sorted(c.items(), key=str)))
-    if res.evaluations % 101 == 1:
+    if nbusy and c['n'] % 1024 and res.evaluations % 29 == 0:
         res.sample({'params': c, 'requests': len(dev.requests), 'virtual_seconds': round(r['clock'].now, 3)})
 
 
